@@ -56,6 +56,17 @@ class Hub:
         self._busy = set()
         # held regions: closures passed to with_commit_lock
         self.held = {}   # closure body path -> (caller body, call bb)
+        # a staging file that is OPTIONAL (`staged: Option<PathBuf>` in a struct of the put handler: empty content stages
+        # nothing, say): which of the paths below exist, and which arm creates / renames / removes what, is then decided by the
+        # value of that Option - the per-call path rules do not read it
+        self.optional_staging = None
+        for name, adt in F.adts.items():
+            if adt.get('crate') != 'bin' or not str(adt.get('file', '')).endswith('serve.rs'):
+                continue
+            for v in adt.get('variants', []):
+                for f in v.get('fields', []):
+                    if isinstance(f, dict) and re.match(r'^std::option::Option<std::path::PathBuf>$', str(f.get('ty', '')).replace(' ', '')):
+                        self.optional_staging = '%s.%s' % (name.split('::')[-1], f.get('name'))
         runners = dict(semantic_anchors.lock_runners(F))
         runners.setdefault(LOCK, 1)
         self.lock_runners = runners
